@@ -935,8 +935,36 @@ func cellOf(v ssa.Value) ssa.Value {
 // says so, records the parameter in the same map, and nothing ever deletes
 // from that map. Returns "" when such a memo exists, otherwise what is missing.
 func persistentMemo(parent *ssa.Function) string {
+	// the visitor may be a closure of parent or a function / method parent calls (closures
+	// turned into methods of a small visitor struct): everything reachable through static calls
+	// inside the package, two levels deep
+	fns := an.WithAnons(parent)
+	seenFn := map[*ssa.Function]bool{}
+	for _, f := range fns {
+		seenFn[f] = true
+	}
+	for depth := 0; depth < 2; depth++ {
+		for _, f := range append([]*ssa.Function(nil), fns...) {
+			an.Instrs(f, func(i ssa.Instruction) {
+				cc := an.CallOf(i)
+				if cc == nil {
+					return
+				}
+				g := cc.StaticCallee()
+				if g == nil || g.Blocks == nil || seenFn[g] || an.RelPkg(g) != an.RelPkg(parent) {
+					return
+				}
+				seenFn[g] = true
+				fns = append(fns, an.WithAnons(g)...)
+			})
+		}
+	}
+	return persistentMemoIn(fns)
+}
+
+func persistentMemoIn(fns []*ssa.Function) string {
 	deleted := map[string]bool{}
-	for _, g := range an.WithAnons(parent) {
+	for _, g := range fns {
 		an.Instrs(g, func(i ssa.Instruction) {
 			if cc := an.CallOf(i); cc != nil {
 				if b, ok := cc.Value.(*ssa.Builtin); ok && b.Name() == "delete" {
@@ -946,7 +974,7 @@ func persistentMemo(parent *ssa.Function) string {
 		})
 	}
 	why := "no visitor that skips a fragment it has already finished"
-	for _, g := range an.WithAnons(parent)[1:] {
+	for _, g := range fns[1:] {
 		for _, pa := range g.Params {
 			n := an.NamedOf(pa.Type())
 			if n == nil || (n.Obj().Name() != "Fragment" && n.Obj().Name() != "SelectionSet") {
